@@ -504,7 +504,8 @@ static void generate_minimal_hash(Ports &p, Port_Matcher &pm)
     cvec_t args;
 
     //the hash is computed from the first component of an address, hence
-    //enumerated names and names with further components cannot be hashed
+    //enumerated names and names with further components cannot be hashed,
+    //nor can names with characters outside of 7 bit ASCII
     bool enump = false;
     for(unsigned i=0; i<p.ports.size(); ++i) {
         const char *name  = p.ports[i].name;
@@ -513,6 +514,11 @@ static void generate_minimal_hash(Ports &p, Port_Matcher &pm)
             enump = true;
         if(slash && slash[1] && slash[1] != ':')
             enump = true;
+        //find_assoc() and do_hash() index the 127 entry association table
+        //with the characters of the names
+        for(const char *c = name; *c; ++c)
+            if((unsigned char)*c >= 127)
+                enump = true;
     }
     if(enump)
         return;
